@@ -971,6 +971,25 @@ class Audit:
                 return False
         return False
 
+    def _inc_dominates(self, s):
+        B = self.body(s.fn)
+        t = B.blocks[s.bb]["term"]
+        msg = t.get("msg") if t["k"] == "assert" else None
+        if not (isinstance(msg, dict) and msg.get("op") == "Sub" and isinstance(msg.get("a"), dict) and msg["a"].get("pl")
+                and isinstance(msg.get("b"), dict) and msg["b"].get("k") == "const" and msg["b"].get("val") == 1):
+            return False
+        place = M.show(B.sym_op(msg["a"], through_vars="pure"))
+        for d in B.dominators().get(s.bb, ()):
+            if d == s.bb:
+                continue
+            td = B.blocks[d]["term"]
+            md = td.get("msg") if td["k"] == "assert" else None
+            if isinstance(md, dict) and md.get("op") == "Add" and isinstance(md.get("a"), dict) and md["a"].get("pl") and \
+                    isinstance(md.get("b"), dict) and md["b"].get("k") == "const" and md["b"].get("val") == 1 and \
+                    M.show(B.sym_op(md["a"], through_vars="pure")) == place:
+                return True
+        return False
+
     def _flag_after_push(self, s):
         B = self.body(s.fn)
         t = B.blocks[s.bb]["term"]
@@ -1039,6 +1058,14 @@ class Audit:
         matter how the guard is spelled, `!(a && b)`, `!a || !b`, nested ifs)"""
         if not reqs:
             return None
+        if any(r == "dominc:" for r in reqs):
+            # `x -= 1` that undoes an `x += 1` made earlier in the same function: the increment (of the same place, as
+            # described) is in a block that dominates the decrement
+            if site is None or site.fn != fn or not self._inc_dominates(site):
+                return "dominc:"
+            reqs = [r for r in reqs if r != "dominc:"]
+            if not reqs:
+                return None
         if any(r == "flagpush:" for r in reqs):
             # `v.len() - 1` under `if flag`, where the mutable flag becomes true only where an element is pushed to v:
             # the site is dominated by flag == true, and every `flag = true` is followed, in straight line, by v.push(..)
